@@ -19,7 +19,7 @@ def grid(rng, tier):
     return lines, meta
 
 def run(tier, seed):
-    return cpucheck.run(PROP, tier, seed, cpucheck.std_gen(FAMS, per_quick=40, per_thorough=2000), keep=KEEP, search_lines=grid,
+    return cpucheck.run(PROP, tier, seed, cpucheck.std_gen(FAMS, per_quick=40, per_thorough=8000), keep=KEEP, search_lines=grid,
                         rule="every encoding of ADD HL/IX/IY,ss, ADC/SBC HL,ss, INC/DEC ss x structured random operand pairs (edges 0x0000/0x0FFF/0x7FFF/0x8000/0xFFFF ...); "
                              "real code vs extracted generated model")
 def replay(path):
